@@ -93,7 +93,12 @@ def programs(ctx, n_exhaustive, n_random):
     rnd = scopegen.random_programs(ctx.rng, n_random)
     sib = scopegen.sibling_comprehension_programs()
     ctx.exhaustive['sibling_comprehension_programs'] = len(sib)
-    return sib + ex + rnd
+    decl = scopegen.declaration_programs()
+    ctx.exhaustive['multi_name_declaration_programs'] = len(decl)
+    short = scopegen.short_named(ex[:ctx.scale(250, 3000)] + sib[:ctx.scale(40, 210)])
+    imp = scopegen.import_programs()
+    par = scopegen.parameter_programs()
+    return decl + imp + par + sib + short + ex + rnd
 
 
 def check_alpha(ctx, ident, src, oname, extra, prop_filter=None):
@@ -145,6 +150,39 @@ def class_fallthrough(src, out):
     return probs
 
 
+def cover_problems(module):
+    """Hypothesis `cover` of theorem C03.renaming_preserves_resolution, checked on the real binding structures: every scope on
+    Python's lookup path of a name occurrence (its own scope, then the enclosing function scopes, up to the scope of the
+    binding it resolves to, per tools/scopes.py) is in the reservation scope the implementation computes for that binding."""
+    import ast as _ast
+    import scopes
+    from python_minifier.rename.renamer import all_bindings, reservation_scope
+    root, occs, _ = scopes.build(module)
+    occ_of = dict((id(o.node), o) for o in occs if isinstance(o.node, _ast.Name))
+    problems = []
+    for namespace, binding in all_bindings(module):
+        rs = set(id(n) for n in reservation_scope(namespace, binding))
+        for node in binding.references:
+            o = occ_of.get(id(node))
+            if o is None:
+                continue
+            r = scopes.resolve(o.scope, o.name)
+            s = o.scope
+            path = [s]
+            target = r[1] if r[0] in ('local', 'cell', 'class') else ()
+            while s.path != target and s.parent is not None:
+                s = s.parent
+                if s.kind in scopes.FUNC_LIKE or s.path == target or s.kind == 'module':
+                    path.append(s)
+            for sc in path:
+                if sc.kind in ('typeparams', 'typealias'):
+                    continue
+                if id(sc.node) not in rs:
+                    problems.append('%s: lookup path scope %r of an occurrence in %r is not in the reservation scope of its binding' % (o.name, sc, o.scope))
+                    break
+    return problems
+
+
 def assigner_correspondence(ctx, progs, flagsets):
     """Feed the binding structures produced by the real scope analysis to the Lean NameAssigner model and
     compare the names it chooses with those the real `rename` chooses (per binding, in all_bindings order)."""
@@ -156,6 +194,11 @@ def assigner_correspondence(ctx, progs, flagsets):
             try:
                 module, pg, prefix = rename_dump.prepare(src, rl, rg, hl)
                 line, pairs = rename_dump.dump(module, pg, prefix)
+                if (rl, rg, hl) == flagsets[0]:
+                    cp = cover_problems(module)
+                    ctx.bump('cover', 'ok' if not cp else 'PROBLEM')
+                    if cp:
+                        ctx.add_broken('correspondence', 'cover:%s' % ident, '%s source=%r' % (cp[:2], src[:300]))
                 real = rename_dump.real_names(module, pairs, pg, prefix)
             except RecursionError:
                 ctx.bump('assigner', 'RecursionError')
